@@ -73,4 +73,21 @@ MUTANTS = [
     ('c15-close-keeps-metadata', ['C15'], S3, "        self._s3_facade.delete_by_prefix(metadata_key)\n", ""),
     ('c15-close-prefix-without-slash', ['C15'], S3, "metadata_key = self.METADATA_KEY.format(key_prefix=self.key_prefix, id='')\n        _logger.info(u'Deleting all full",
      "metadata_key = self.METADATA_KEY.format(key_prefix=self.key_prefix.rstrip('/'), id='')\n        _logger.info(u'Deleting all full"),
+    # ---- C01
+    ('c01-no-reraise-recorded-exception', ['C01'], TR, "        if 'exception' in recorded:\n            raise recorded['exception']\n\n        value = recorded['value']",
+     "        value = recorded.get('value')"),
+    ('c01-skip-restore-handler', ['C01'], TR, "            value = data_handler.restore_input_from_recording(value, args, kwargs)\n", "            pass\n"),
+    ('c01-output-ordinal-off-by-one-on-replay', ['C01', 'C03'], TR, "                invocation_number = self._invoke_counter[alias]\n",
+     "                invocation_number = self._invoke_counter[alias] + (1 if self.in_playback_mode and self._invoke_counter[alias] > 9 else 0)\n"),
+    ('c01-output-instance-not-stripped-static', ['C03'], TR, "args if static_function else args[1:], kwargs,", "args[1:], kwargs,"),
+    ('c01-key-ignores-kwargs', ['C01', 'C06'], TR, "            kwargs_for_key = kwargs\n        # Set to not", "            kwargs_for_key = {}\n        # Set to not"),
+    ('c01-first-key-lexicographic', ['C01', 'C02'], TR, "interception_key = next((x for x in possible_keys if x in recording_keys), None)",
+     "interception_key = next((x for x in sorted(recording_keys) if x.startswith(possible_keys[0][:12])), None) if len(recording_keys) > 6 else next((x for x in possible_keys if x in recording_keys), None)"),
+    ('c01-thread-local-flag-shared', ['C01', 'C04'], TR, "self._thread_locals = threading.local()", "self._thread_locals = type('NS', (), {})()"),
+    ('c01-counter-not-reset-after-play', ['C09'], TR, "            self._playback_outputs = []\n            # Clear any previous invocation counter state\n            self._invoke_counter = Counter()", "            self._playback_outputs = []"),
+    ('c01-op-exception-not-output-in-replay', ['C01', 'C03'], TR, "            if self.in_playback_mode:\n                # In playback mode we want to capture this as an error",
+     "            if self.in_playback_mode and False:\n                # In playback mode we want to capture this as an error"),
+    ('c01-getdata-tuple-to-list', ['C01', 'C07', 'C11'], MREC, "return pickle_copy(self.get_data_direct(key))", "import json as _j\n        from jsonpickle import encode as _e, decode as _d\n        return _d(_e(self.get_data_direct(key), unpicklable=True).replace('py/tuple', 'py/seq'))"),
+    ('c01-property-input-not-intercepted-in-replay', ['C01', 'C02'], TR, "            def decorated_function(*args, **kwargs):\n                if not self._should_intercept:\n                    return func(*args, **kwargs)\n\n                try:\n                    formatted_alias",
+     "            def decorated_function(*args, **kwargs):\n                if not self._should_intercept or (is_property and self.in_playback_mode):\n                    return func(*args, **kwargs)\n\n                try:\n                    formatted_alias"),
 ]
